@@ -492,6 +492,16 @@ def explore_c14(rng, tier, res, deep=False):
                 ops_wire.append(f"(newenv {d['maxDepth']} {d['minIdx']} {d['maxIdx']} 0)")
                 outs_real.append("unit")
                 hist.append(("newenv", d["maxDepth"]))
+            elif k < 0.17 and len(envs) > 1:
+                # reconfiguration: the limit is a plain attribute that may be set at any time (never on DEFAULT_ENV);
+                # applications and compilations that follow — of queries compiled before, too — go by the new value
+                ei = rng.randrange(1, len(envs))
+                md = rng.choice([1, 2, 3, 4, 100])
+                envs[ei].max_recursion_depth = md
+                descs[ei] = dict(descs[ei], maxDepth=md)
+                ops_wire.append(f"(configure {ei} {md} {descs[ei]['minIdx']} {descs[ei]['maxIdx']})")
+                outs_real.append("unit")
+                hist.append(("configure", ei, md))
             elif k < 0.27 and len(envs) > 1:
                 ei = rng.randrange(1, len(envs))  # never register on DEFAULT_ENV: it is shared by the whole process
                 name, ats, ret, body = rng.choice([f for f in gen.PROBE_FNS if f[3] not in ("length", "count", "value")])
